@@ -159,8 +159,11 @@ def variants(n):
             yield with_kids(n, ks[:i] + [v] + ks[i + 1 :])
 
 
-def shrink(prog, fails, max_tests=400):
+def shrink(prog, fails, max_tests=400, max_seconds=20.0):
     """greedy: repeatedly take the first smaller variant that still fails"""
+    import time
+
+    t0 = time.time()
     tests = 0
     cur = prog
     improved = True
@@ -168,8 +171,8 @@ def shrink(prog, fails, max_tests=400):
         improved = False
         for v in variants(cur):
             tests += 1
-            if tests > max_tests:
-                break
+            if tests > max_tests or time.time() - t0 > max_seconds:
+                return cur
             try:
                 ok = fails(v)
             except Exception:
